@@ -12,6 +12,7 @@
 from __future__ import annotations
 
 import ast
+import copy
 import re
 from typing import Callable, Dict, Iterable, List, Optional, Set, Tuple
 
@@ -35,6 +36,12 @@ def norm_paths(repo: Repo, paths: Iterable[Path]) -> Set[Path]:
     for p in paths:
         if p[0] in ("fresh:tuple", "fresh:list") and len(p) > 1 and (_digits(p[1], "unpack:") or _digits(p[1], "item:")):
             continue            # a component of a literal tuple / list is what was put in (the `in:<i>` flows), not the container
+        if len(p) > 1 and p[0].startswith("fresh:") and p[1].startswith(("attr:", "unpack:", "item:")):
+            fields = record_fields(repo, p[0][6:])
+            if fields and (p[1][5:] in fields or _digits(p[1], "unpack:") or _digits(p[1], "item:")):
+                continue        # likewise a field of a record built here: the constructor argument flows, not the record
+        if len(p) > 1 and p[0] == "const:None" and p[1].startswith(("attr:", "item", "unpack:", "call:")):
+            continue            # nothing is read from None (the branch that does is guarded by an `is None` test)
         steps: List[str] = []
         dead = False
         for st in p:
@@ -47,6 +54,25 @@ def norm_paths(repo: Repo, paths: Iterable[Path]) -> Set[Path]:
                         continue
                     dead = True
                     break
+            if steps:
+                # a field read from a record (NamedTuple / dataclass / namedtuple) built right before: only the value stored in
+                # that field flows on
+                made = _record_step(repo, steps[-1])
+                if made is not None:
+                    fields, fld = made
+                    want = None
+                    if st.startswith("attr:") and st[5:] in fields:
+                        want = st[5:]
+                    else:
+                        j = _digits(st, "unpack:") or _digits(st, "item:")
+                        if j is not None and int(j) < len(fields):
+                            want = fields[int(j)]
+                    if want is not None:
+                        if want == fld:
+                            steps.pop()
+                            continue
+                        dead = True
+                        break
             if st.startswith("kw:"):
                 _kw, name, callee = st.split(":", 2)
                 idx = _param_index(repo, callee, name)
@@ -56,6 +82,78 @@ def norm_paths(repo: Repo, paths: Iterable[Path]) -> Set[Path]:
         if not dead:
             out.add(tuple(steps))
     return out
+
+
+_rec_cache: Dict[Tuple[int, str], Optional[List[str]]] = {}
+_RECORD_BASES = ("NamedTuple", "typing.NamedTuple")
+_RECORD_DECORATORS = ("dataclass",)
+
+
+def record_fields(repo: Repo, cls_name: str) -> Optional[List[str]]:
+    """field names, in constructor order, of a record class of the repository: a typing.NamedTuple subclass, a @dataclass without
+    its own __init__, or a module-level `X = namedtuple('X', 'a b')` / `NamedTuple('X', [('a', T), ..])`"""
+    k = (id(repo), cls_name)
+    if k in _rec_cache:
+        return _rec_cache[k]
+    out: Optional[List[str]] = None
+    ci = repo.classes.get(cls_name)
+    if ci is not None:
+        bases = [b.rsplit(".", 1)[-1] for b in ci.bases]
+        decos = []
+        for d in ci.node.decorator_list:
+            d = d.func if isinstance(d, ast.Call) else d
+            decos.append(d.attr if isinstance(d, ast.Attribute) else getattr(d, "id", ""))
+        is_nt = any(b == "NamedTuple" for b in bases) or any(_is_named_tuple_base(repo, ci, b) for b in ci.node.bases)
+        if (is_nt or any(d in _RECORD_DECORATORS for d in decos)) and "__init__" not in ci.methods and "__new__" not in ci.methods:
+            out = [b.target.id for b in ci.node.body if isinstance(b, ast.AnnAssign) and isinstance(b.target, ast.Name)
+                   and "ClassVar" not in ast.unparse(b.annotation)]
+    else:
+        for m in repo.mods.values():
+            d = m.defs.get(cls_name)
+            if d and d[0] == "const" and isinstance(d[1], ast.Call):
+                c = d[1]
+                fn = c.func.attr if isinstance(c.func, ast.Attribute) else getattr(c.func, "id", "")
+                if fn.lstrip("_") in ("namedtuple", "NamedTuple") and len(c.args) >= 2:
+                    spec = c.args[1]
+                    if isinstance(spec, ast.Constant) and isinstance(spec.value, str):
+                        out = spec.value.replace(",", " ").split()
+                    elif isinstance(spec, (ast.List, ast.Tuple)):
+                        names = []
+                        for x in spec.elts:
+                            if isinstance(x, ast.Constant) and isinstance(x.value, str):
+                                names.append(x.value)
+                            elif isinstance(x, (ast.Tuple, ast.List)) and x.elts and isinstance(x.elts[0], ast.Constant) and isinstance(x.elts[0].value, str):
+                                names.append(x.elts[0].value)
+                            else:
+                                names = None
+                                break
+                        out = names
+                break
+    _rec_cache[k] = out or None
+    return _rec_cache[k]
+
+
+def _is_named_tuple_base(repo: Repo, ci, base: ast.AST) -> bool:
+    if not isinstance(base, ast.Name):
+        return False
+    try:
+        r = repo.lookup(ci.mod, base.id)
+    except Exception:
+        return False
+    return bool(r and r[0] == "external" and isinstance(r[1], tuple) and r[1][1] == "NamedTuple")
+
+
+def _record_step(repo: Repo, step: str) -> Optional[Tuple[List[str], str]]:
+    """`arg<i>:<Record>` / `kw:<field>:<Record>` -> (fields of the record, the field the value was stored in)"""
+    if step.startswith("kw:"):
+        _kw, name, callee = step.split(":", 2)
+        fields = record_fields(repo, callee)
+        return (fields, name) if fields and name in fields else None
+    i = arg_index(step)
+    if i is not None:
+        fields = record_fields(repo, step.split(":", 1)[1])
+        return (fields, fields[i]) if fields and i < len(fields) else None
+    return None
 
 
 _pi_cache: Dict[Tuple[int, str, str], Optional[int]] = {}
@@ -124,7 +222,9 @@ _STR_METHODS = {"replace", "strip", "lstrip", "rstrip", "lower", "upper", "casef
                 "rsplit", "join", "isalnum", "isalpha", "isdigit", "isspace", "isidentifier", "startswith", "endswith", "title", "capitalize",
                 "swapcase", "format", "partition", "rpartition", "splitlines", "count", "find", "index", "isupper", "islower", "zfill"}
 _RE_FUNCS = {"sub", "compile", "escape", "split", "findall", "fullmatch", "match", "search"}
-_BUILTINS = {"str": str, "len": len, "ord": ord, "chr": chr, "list": list, "tuple": tuple, "sorted": sorted, "reversed": lambda x: list(reversed(x)),
+_HIGHER_ORDER = ("filter", "map", "any", "all", "reduce", "filterfalse")
+_BUILTINS = {"frozenset": lambda x=(): tuple(sorted(set(x))), "min": min, "max": max, "zip": lambda *a: tuple(zip(*a)),
+             "enumerate": lambda x: tuple(enumerate(x)), "any": any, "all": all, "str": str, "len": len, "ord": ord, "chr": chr, "list": list, "tuple": tuple, "sorted": sorted, "reversed": lambda x: list(reversed(x)),
              "bool": bool, "int": int, "repr": repr, "set": lambda x: sorted(set(x))}
 
 
@@ -143,6 +243,8 @@ class PureEval:
     def _global(self, name: str):
         r = self.repo.lookup(self.mods[-1], name)
         if r is None:
+            if name in ("filter", "map"):
+                return ("higher", name)
             if name in _BUILTINS:
                 return ("builtin", name)
             raise NotPure(f"name {name} is not resolved")
@@ -157,6 +259,8 @@ class PureEval:
             if mod == "string" and attr in ("whitespace", "punctuation", "digits", "ascii_letters"):
                 import string
                 return getattr(string, attr)
+            if (mod, attr) in (("functools", "reduce"), ("itertools", "filterfalse")):
+                return ("higher", attr)
             raise NotPure(f"external name {mod}.{attr} is not interpreted")
         if r[0] == "const":
             return self._in_module(r[1], r[2])
@@ -315,11 +419,20 @@ class PureEval:
             if m == "string" and e.attr in ("whitespace", "punctuation", "digits", "ascii_letters"):
                 import string
                 return getattr(string, e.attr)
+            if (m, e.attr) in (("functools", "reduce"), ("itertools", "filterfalse")):
+                return ("higher", e.attr)
+            if isinstance(e.value, ast.Name) and e.value.id == "str" and e.attr in _STR_METHODS and not any(e.value.id in sc for sc in self.locals):
+                return ("strmethod", e.attr)
             if isinstance(e.value, ast.Name) and e.value.id == "str" and e.attr == "maketrans":
                 return ("builtin", "maketrans")
             raise NotPure(f"attribute {ast.unparse(e)[:40]}")
         if isinstance(e, ast.Call):
             return self._call(e, depth)
+        if isinstance(e, ast.Lambda):
+            a = e.args
+            if a.vararg or a.kwarg or a.kwonlyargs or a.defaults:
+                raise NotPure("lambda signature")
+            return ("lambda", e, list(self.locals), list(self.mods))
         raise NotPure(f"{type(e).__name__} expression")
 
     def _module_of(self, e: ast.AST) -> Optional[str]:
@@ -386,6 +499,60 @@ class PureEval:
                 raise NotPure(f"statement {type(s).__name__} in a helper")
         return False, None
 
+    def apply(self, fn, args: list, depth: int):
+        """call of an interpreted function value (lambda closure, repository helper, builtin, str method) with evaluated arguments"""
+        if depth > 40:
+            raise NotPure("depth")
+        if isinstance(fn, tuple) and fn:
+            if fn[0] == "lambda":
+                _k, node, scopes, mods = fn
+                params = [x.arg for x in node.args.posonlyargs + node.args.args]
+                if len(params) != len(args):
+                    raise NotPure("lambda call")
+                saved = (self.locals, self.mods)
+                self.locals, self.mods = list(scopes) + [dict(zip(params, args))], list(mods)
+                try:
+                    return self.ev(node.body, depth + 1)
+                finally:
+                    self.locals, self.mods = saved
+            if fn[0] == "func":
+                return self._run(fn[1], fn[2], list(args), {}, depth + 1)
+            if fn[0] == "builtin" and fn[1] in _BUILTINS:
+                res = _BUILTINS[fn[1]](*args)
+                return tuple(res) if isinstance(res, list) else res
+            if fn[0] == "strmethod" and args and isinstance(args[0], str):
+                res = getattr(args[0], fn[1])(*args[1:])
+                return tuple(res) if isinstance(res, list) else res
+            if fn[0] == "refunc":
+                return self._re_result(getattr(re, fn[1])(*args))
+        raise NotPure("call of an uninterpreted function value")
+
+    def _higher(self, name: str, args: list, depth: int):
+        def seq(x):
+            if not isinstance(x, (str, tuple, list)):
+                raise NotPure(f"{name} over a non-sequence")
+            return x
+        if name in ("filter", "filterfalse") and len(args) == 2:
+            keep = name == "filter"
+            if args[0] is None:
+                return tuple(x for x in seq(args[1]) if bool(x) == keep)
+            return tuple(x for x in seq(args[1]) if bool(self.apply(args[0], [x], depth + 1)) == keep)
+        if name == "map" and len(args) >= 2:
+            cols = [seq(a) for a in args[1:]]
+            return tuple(self.apply(args[0], list(row), depth + 1) for row in zip(*cols))
+        if name == "reduce" and len(args) in (2, 3):
+            items = list(seq(args[1]))
+            if len(args) == 3:
+                acc = args[2]
+            elif items:
+                acc = items.pop(0)
+            else:
+                raise NotPure("reduce of an empty sequence")
+            for x in items:
+                acc = self.apply(args[0], [acc, x], depth + 1)
+            return acc
+        raise NotPure(f"call of {name}")
+
     def _comp(self, comp, gi: int, depth: int):
         if gi == len(comp.generators):
             yield self.ev(comp.elt, depth + 1)
@@ -432,8 +599,16 @@ class PureEval:
                     raise NotPure(f"method {fn.attr} on {type(recv).__name__}")
             else:
                 target = E(fn)
+            if isinstance(target, tuple) and target and target[0] == "higher":
+                if kw:
+                    raise NotPure("keyword arguments of " + target[1])
+                return self._higher(target[1], args, depth + 1)
+            if isinstance(target, tuple) and target and target[0] in ("lambda", "strmethod"):
+                if kw:
+                    raise NotPure("keyword arguments of a function value")
+                return self.apply(target, args, depth + 1)
             if isinstance(target, tuple) and target and target[0] == "refunc":
-                if any(callable(a) for a in args):
+                if any(callable(a) or (isinstance(a, tuple) and a and a[0] in ("lambda", "func", "builtin")) for a in args):
                     raise NotPure("callable replacement")
                 return self._re_result(getattr(re, target[1])(*args, **kw))
             if isinstance(target, tuple) and target and target[0] == "func":
@@ -480,3 +655,473 @@ def squeeze(text: str) -> str:
     """layout-insensitive form of a PDDL template: runs of blanks are one blank, none after '(' / before ')'"""
     t = re.sub(r"\s+", " ", text).strip()
     return t.replace("( ", "(").replace(" )", ")")
+
+
+# --------------------------------------------------------------------------------------------------------------- static unrolling
+_SEQ_WRAPPERS = ("list", "tuple", "iter")
+MAX_UNROLL = 16
+
+
+class _Subst(ast.NodeTransformer):
+    """copy of an expression with loads of some names replaced by (copies of) expressions"""
+
+    def __init__(self, mapping: Dict[str, ast.AST]):
+        self.mapping = mapping
+
+    def visit_Name(self, n):
+        if isinstance(n.ctx, ast.Load) and n.id in self.mapping:
+            return ast.copy_location(copy.deepcopy(self.mapping[n.id]), n)
+        return n
+
+
+def _binds(e: ast.AST, names: Set[str]) -> bool:
+    """a nested scope of e (comprehension / lambda / walrus) binds one of the names again"""
+    for n in ast.walk(e):
+        if isinstance(n, ast.Name) and isinstance(n.ctx, ast.Store) and n.id in names:
+            return True
+        if isinstance(n, ast.arg) and n.arg in names:
+            return True
+    return False
+
+
+class Unroller:
+    """comprehensions / generator expressions / zip / map / enumerate / reversed over sequences whose length is known from the source
+    (tuple and list displays, directly or through a local name bound once) are written out element by element:
+
+        a, b = [f(s, k) for s, k in zip(sides, (True, False))]      with  sides = (x, y)
+        a, b = [f(x, True), f(y, False)]
+
+    so that position i of the result is visibly a function of position i of the operands (provenance pairs display elements with
+    unpacking targets).  Only the value flow is kept -- laziness and evaluation order are not modelled, nothing is executed."""
+
+    def __init__(self, repo: Repo, f: FuncInfo):
+        from .. import cfg as C
+        from .. import lib as L
+        self.repo = repo
+        self.f = f
+        self.g = C.cfg_of(f.node)
+        self.rd = L.rd_of(f)
+        self.changed = False
+
+    def _same_defs(self, e: ast.AST, at_def: int, at_use: int) -> bool:
+        for n in ast.walk(e):
+            if isinstance(n, ast.Name) and isinstance(n.ctx, ast.Load):
+                if self.rd.defs_reaching(at_def, n.id) != self.rd.defs_reaching(at_use, n.id):
+                    return False
+        return True
+
+    def seq(self, e: ast.AST, at: int, depth: int = 0) -> Optional[List[ast.AST]]:
+        """the element expressions of a sequence valued expression evaluated at CFG node `at` (None: length not known)"""
+        if depth > 8:
+            return None
+        if isinstance(e, (ast.Tuple, ast.List)) and isinstance(getattr(e, "ctx", ast.Load()), ast.Load):
+            if any(isinstance(x, ast.Starred) for x in e.elts):
+                out: List[ast.AST] = []
+                for x in e.elts:
+                    if isinstance(x, ast.Starred):
+                        inner = self.seq(x.value, at, depth + 1)
+                        if inner is None:
+                            return None
+                        out.extend(inner)
+                    else:
+                        out.append(x)
+                return out
+            return list(e.elts)
+        if isinstance(e, ast.Name) and isinstance(e.ctx, ast.Load):
+            defs = self.rd.defs_reaching(at, e.id)
+            if not defs:
+                return self._module_seq(e.id)
+            if len(defs) != 1:
+                return None
+            d = next(iter(defs))
+            if d == self.g.entry:
+                return None
+            st = self.g.stmt[d]
+            v = None
+            if isinstance(st, ast.Assign) and len(st.targets) == 1 and isinstance(st.targets[0], ast.Name):
+                v = st.value
+            elif isinstance(st, ast.AnnAssign) and isinstance(st.target, ast.Name) and st.value is not None:
+                v = st.value
+            if v is None:
+                return None
+            if not isinstance(v, (ast.Tuple, ast.GeneratorExp)) and self._mutable_name(e.id):
+                return None         # a list that is filled later on
+            got = self.seq(v, d, depth + 1)
+            if got is None or not all(self._same_defs(x, d, at) for x in got):
+                return None
+            return got
+        if isinstance(e, (ast.ListComp, ast.GeneratorExp)) and len(e.generators) == 1:
+            gen = e.generators[0]
+            if gen.ifs or gen.is_async:
+                return None
+            src = self.seq(gen.iter, at, depth + 1)
+            if src is None:
+                return None
+            out = []
+            for x in src:
+                m = self._bind(gen.target, x)
+                if m is None or _binds(e.elt, set(m)):
+                    return None
+                out.append(_Subst(m).visit(copy.deepcopy(e.elt)))
+            return out
+        if isinstance(e, ast.Call) and isinstance(e.func, ast.Attribute) and e.func.attr in ("items", "keys", "values") and not e.args and not e.keywords:
+            d = self._dict_display(e.func.value, at)
+            if d is None:
+                return None
+            if e.func.attr == "items":
+                return [ast.Tuple(elts=[k, v], ctx=ast.Load()) for k, v in zip(d.keys, d.values)]
+            return list(d.keys if e.func.attr == "keys" else d.values)
+        if isinstance(e, ast.Call) and isinstance(e.func, ast.Name) and not e.keywords and not any(isinstance(a, ast.Starred) for a in e.args):
+            nm = e.func.id
+            if self.rd.defs_reaching(at, nm):
+                return None         # a local of that name
+            if nm in _SEQ_WRAPPERS and len(e.args) == 1:
+                return self.seq(e.args[0], at, depth + 1)
+            if nm == "reversed" and len(e.args) == 1:
+                got = self.seq(e.args[0], at, depth + 1)
+                return None if got is None else list(reversed(got))
+            if nm == "zip" and e.args:
+                cols = [self.seq(a, at, depth + 1) for a in e.args]
+                if any(c is None for c in cols):
+                    return None
+                return [ast.Tuple(elts=list(row), ctx=ast.Load()) for row in zip(*cols)]
+            if nm == "enumerate" and len(e.args) == 1:
+                got = self.seq(e.args[0], at, depth + 1)
+                return None if got is None else [ast.Tuple(elts=[ast.Constant(value=i), x], ctx=ast.Load()) for i, x in enumerate(got)]
+            if nm == "map" and len(e.args) >= 2:
+                cols = [self.seq(a, at, depth + 1) for a in e.args[1:]]
+                if any(c is None for c in cols):
+                    return None
+                fn = e.args[0]
+                out = []
+                for row in zip(*cols):
+                    if isinstance(fn, ast.Lambda):
+                        a = fn.args
+                        if a.vararg or a.kwarg or a.kwonlyargs or a.defaults or len(a.posonlyargs + a.args) != len(row):
+                            return None
+                        m = {p.arg: x for p, x in zip(a.posonlyargs + a.args, row)}
+                        body = copy.deepcopy(fn.body)
+                        if any(isinstance(n, (ast.Lambda, ast.ListComp, ast.GeneratorExp, ast.SetComp, ast.DictComp, ast.NamedExpr)) for n in ast.walk(body)):
+                            return None
+                        out.append(_Subst(m).visit(body))
+                    elif isinstance(fn, (ast.Name, ast.Attribute)):
+                        out.append(ast.Call(func=copy.deepcopy(fn), args=[copy.deepcopy(x) for x in row], keywords=[]))
+                    else:
+                        return None
+                return out
+        return None
+
+    def _module_const(self, name: str) -> Optional[ast.AST]:
+        """the value expression of a module-level constant of the function's own module (bound there, not a local of the function)"""
+        if name in self.f.params:
+            return None
+        try:
+            r = self.repo.lookup(self.f.mod.name, name)
+        except Exception:
+            return None
+        if r and r[0] == "const" and r[2] == self.f.mod.name:
+            return r[1]
+        return None
+
+    def _locals(self) -> Set[str]:
+        if not hasattr(self, "_local_names"):
+            names = set(self.f.params)
+            for n in ast.walk(self.f.node):
+                if isinstance(n, ast.Name) and isinstance(n.ctx, (ast.Store, ast.Del)):
+                    names.add(n.id)
+                elif isinstance(n, ast.arg):
+                    names.add(n.arg)
+            self._local_names = names
+        return self._local_names
+
+    def _global_only(self, e: ast.AST) -> bool:
+        """an expression of the module level means the same inside the function (none of its names is a local of the function)"""
+        inner = set()
+        for n in ast.walk(e):
+            if isinstance(n, ast.arg):
+                inner.add(n.arg)
+            elif isinstance(n, ast.Name) and isinstance(n.ctx, ast.Store):
+                inner.add(n.id)
+        return not any(isinstance(n, ast.Name) and n.id in self._locals() and n.id not in inner for n in ast.walk(e))
+
+    def _module_seq(self, name: str) -> Optional[List[ast.AST]]:
+        v = self._module_const(name)
+        if v is not None and self._mutable_name(name):
+            return None
+        if isinstance(v, (ast.Tuple, ast.List)) and not any(isinstance(x, ast.Starred) for x in v.elts) and all(self._global_only(x) for x in v.elts):
+            return list(v.elts)
+        if isinstance(v, ast.Dict) and all(k is not None for k in v.keys) and all(self._global_only(k) for k in v.keys):
+            return list(v.keys)           # iterating a dict yields its keys
+        return None
+
+    def _dict_display(self, e: ast.AST, at: int) -> Optional[ast.Dict]:
+        v = self._local_value(e, at) if isinstance(e, ast.Name) else e
+        if isinstance(e, ast.Name) and self.rd.defs_reaching(at, e.id) and self._mutable_name(e.id):
+            return None
+        if isinstance(v, ast.Dict) and all(k is not None for k in v.keys) and len(v.keys) <= MAX_UNROLL:
+            if isinstance(e, ast.Name) and not self.rd.defs_reaching(at, e.id) and not all(self._global_only(x) for x in list(v.keys) + list(v.values)):
+                return None
+            return v
+        return None
+
+    def _local_value(self, e: ast.AST, at: int) -> Optional[ast.AST]:
+        """the expression a name stands for: its only (plain) local definition, else its module-level binding"""
+        if not isinstance(e, ast.Name):
+            return e
+        defs = self.rd.defs_reaching(at, e.id)
+        if not defs:
+            return self._module_const(e.id)
+        if len(defs) != 1:
+            return None
+        d = next(iter(defs))
+        if d == self.g.entry:
+            return None
+        st = self.g.stmt[d]
+        v = None
+        if isinstance(st, ast.Assign) and len(st.targets) == 1 and isinstance(st.targets[0], ast.Name):
+            v = st.value
+        elif isinstance(st, ast.AnnAssign) and isinstance(st.target, ast.Name):
+            v = st.value
+        if v is None or not self._same_defs(v, d, at):
+            return None
+        return v
+
+    def _operator_ctor(self, e: ast.AST) -> Optional[str]:
+        """'attrgetter' / 'itemgetter' / 'methodcaller' when e constructs one of the operator module's accessor objects"""
+        if not isinstance(e, ast.Call):
+            return None
+        fn = e.func
+        name = None
+        if isinstance(fn, ast.Attribute) and isinstance(fn.value, ast.Name):
+            r = self.repo.lookup(self.f.mod.name, fn.value.id)
+            if r and r[0] == "module" and r[1] == "operator":
+                name = fn.attr
+        elif isinstance(fn, ast.Name):
+            r = self.repo.lookup(self.f.mod.name, fn.id)
+            if r and r[0] == "external" and isinstance(r[1], tuple) and r[1][0] == "operator":
+                name = r[1][1]
+        return name if name in ("attrgetter", "itemgetter", "methodcaller") else None
+
+    def applied_accessor(self, call: ast.Call, at: int) -> Optional[ast.AST]:
+        """`attrgetter('a', 'b')(x)` -> `(x.a, x.b)`, `itemgetter(0, 1)(x)` -> `(x[0], x[1])`, `methodcaller('m', 1)(x)` -> `x.m(1)`
+        (the accessor may be bound to a local or module-level name)"""
+        if call.keywords or len(call.args) != 1 or isinstance(call.args[0], ast.Starred):
+            return None
+        ctor = self._local_value(call.func, at) if isinstance(call.func, ast.Name) else call.func
+        kind = self._operator_ctor(ctor) if ctor is not None else None
+        if kind is None or any(isinstance(a, ast.Starred) for a in ctor.args):
+            return None
+        x = call.args[0]
+        if not isinstance(x, (ast.Name, ast.Attribute, ast.Subscript)):
+            return None             # the operand would be evaluated several times
+        if kind == "attrgetter":
+            if not ctor.args or ctor.keywords or not all(isinstance(a, ast.Constant) and isinstance(a.value, str) and a.value for a in ctor.args):
+                return None
+            parts = []
+            for a in ctor.args:
+                cur: ast.AST = copy.deepcopy(x)
+                for piece in a.value.split("."):
+                    if not piece.isidentifier():
+                        return None
+                    cur = ast.Attribute(value=cur, attr=piece, ctx=ast.Load())
+                parts.append(cur)
+        elif kind == "itemgetter":
+            if not ctor.args or ctor.keywords or not all(isinstance(a, ast.Constant) for a in ctor.args):
+                return None
+            parts = [ast.Subscript(value=copy.deepcopy(x), slice=copy.deepcopy(a), ctx=ast.Load()) for a in ctor.args]
+        else:
+            if not ctor.args or not (isinstance(ctor.args[0], ast.Constant) and isinstance(ctor.args[0].value, str) and ctor.args[0].value.isidentifier()):
+                return None
+            rest = ctor.args[1:]
+            if not all(isinstance(a, ast.Constant) for a in rest) or not all(k.arg and isinstance(k.value, ast.Constant) for k in ctor.keywords):
+                return None
+            return ast.Call(func=ast.Attribute(value=copy.deepcopy(x), attr=ctor.args[0].value, ctx=ast.Load()),
+                            args=[copy.deepcopy(a) for a in rest], keywords=[copy.deepcopy(k) for k in ctor.keywords])
+        return parts[0] if len(parts) == 1 else ast.Tuple(elts=parts, ctx=ast.Load())
+
+    def expanded_keywords(self, call: ast.Call, at: int) -> Optional[ast.Call]:
+        """`f(a, **d)` with `d = {'k': x, ..}` (a display, directly or through a name) -> `f(a, k=x, ..)`"""
+        if not any(k.arg is None for k in call.keywords):
+            return None
+        kws = []
+        for k in call.keywords:
+            if k.arg is not None:
+                kws.append(k)
+                continue
+            v = self._local_value(k.value, at) if isinstance(k.value, ast.Name) else k.value
+            if isinstance(v, ast.Call) and isinstance(v.func, ast.Name) and v.func.id == "dict" and not v.args and all(x.arg for x in v.keywords) \
+                    and not self.rd.defs_reaching(at, "dict"):
+                kws.extend(ast.keyword(arg=x.arg, value=x.value) for x in v.keywords)
+                continue
+            if not isinstance(v, ast.Dict) or not all(isinstance(x, ast.Constant) and isinstance(x.value, str) and x.value.isidentifier() for x in v.keys):
+                return None
+            kws.extend(ast.keyword(arg=x.value, value=y) for x, y in zip(v.keys, v.values))
+        if len({k.arg for k in kws}) != len(kws):
+            return None
+        new = ast.Call(func=call.func, args=call.args, keywords=kws)
+        return new
+
+    _SAFE_CONSUMERS = {"zip", "map", "enumerate", "reversed", "list", "tuple", "len", "iter", "sorted", "set", "frozenset", "dict", "sum", "min", "max",
+                       "any", "all", "filter", "str", "repr", "print", "isinstance"}
+
+    def _mutable_name(self, name: str) -> bool:
+        """the list / dict bound to this local name may change after its definition: a method is called on it, an item is stored,
+        it is augmented, or it is handed to a function that is not known to leave it alone"""
+        if not hasattr(self, "_mutable"):
+            self._mutable: Dict[str, bool] = {}
+        if name not in self._mutable:
+            bad = False
+            for n in ast.walk(self.f.node):
+                if isinstance(n, ast.Attribute) and isinstance(n.value, ast.Name) and n.value.id == name:
+                    if n.attr not in ("items", "keys", "values", "get", "index", "count", "copy"):
+                        bad = True
+                elif isinstance(n, ast.Subscript) and isinstance(n.value, ast.Name) and n.value.id == name and not isinstance(n.ctx, ast.Load):
+                    bad = True
+                elif isinstance(n, ast.AugAssign) and isinstance(n.target, ast.Name) and n.target.id == name:
+                    bad = True
+                elif isinstance(n, ast.Call):
+                    fn = n.func.id if isinstance(n.func, ast.Name) else None
+                    for a in list(n.args) + [k.value for k in n.keywords]:
+                        a = a.value if isinstance(a, ast.Starred) else a
+                        if isinstance(a, ast.Name) and a.id == name and fn not in self._SAFE_CONSUMERS:
+                            bad = True
+                if bad:
+                    break
+            self._mutable[name] = bad
+        return self._mutable[name]
+
+    def _is_display_name(self, e: ast.AST, at: int) -> bool:
+        """a name bound to a tuple / list display: provenance pairs its components already, nothing to write out"""
+        if not isinstance(e, ast.Name):
+            return False
+        defs = self.rd.defs_reaching(at, e.id)
+        if len(defs) != 1:
+            return False
+        st = self.g.stmt[next(iter(defs))]
+        return isinstance(st, (ast.Assign, ast.AnnAssign)) and isinstance(st.value, (ast.Tuple, ast.List)) \
+            and not any(isinstance(x, ast.Starred) for x in st.value.elts)
+
+    @staticmethod
+    def _unrollable_body(loop: ast.For) -> bool:
+        """no break / continue that belongs to this loop, no inlined helper block (its labels must stay unique), no nested definitions"""
+        def scan(stmts, own: bool) -> bool:
+            for s in stmts:
+                if isinstance(s, (ast.Break, ast.Continue)) and own:
+                    return False
+                if getattr(s, "_inline_block", False) or getattr(s, "_inline_jump", False):
+                    return False
+                if isinstance(s, (ast.FunctionDef, ast.AsyncFunctionDef, ast.ClassDef, ast.Try, ast.With)):
+                    return False
+                if isinstance(s, (ast.For, ast.While)):
+                    if not scan(s.body, False) or not scan(s.orelse, own):
+                        return False
+                elif isinstance(s, ast.If):
+                    if not scan(s.body, own) or not scan(s.orelse, own):
+                        return False
+            return True
+        return scan(loop.body, True)
+
+    def _bind(self, target: ast.AST, value: ast.AST) -> Optional[Dict[str, ast.AST]]:
+        if isinstance(target, ast.Name):
+            return {target.id: value}
+        if isinstance(target, (ast.Tuple, ast.List)) and isinstance(value, (ast.Tuple, ast.List)) and len(target.elts) == len(value.elts) \
+                and not any(isinstance(x, ast.Starred) for x in list(target.elts) + list(value.elts)):
+            out: Dict[str, ast.AST] = {}
+            for t, v in zip(target.elts, value.elts):
+                m = self._bind(t, v)
+                if m is None:
+                    return None
+                out.update(m)
+            return out
+        return None
+
+    def run(self) -> FuncInfo:
+        repl: Dict[int, ast.AST] = {}
+        for n in self.g.nodes():
+            st = self.g.stmt[n]
+            if not isinstance(st, (ast.Assign, ast.AnnAssign, ast.Return)) or st.value is None:
+                continue
+            for sub in ast.walk(st.value):
+                if isinstance(sub, ast.Call):
+                    acc = self.applied_accessor(sub, n)
+                    if acc is None:
+                        acc = self.expanded_keywords(sub, n)
+                    if acc is not None:
+                        repl[id(sub)] = ast.copy_location(copy.deepcopy(acc), sub)
+                        continue
+                if isinstance(sub, (ast.ListComp, ast.GeneratorExp)) or (isinstance(sub, ast.Call) and isinstance(sub.func, ast.Name)
+                                                                          and sub.func.id in ("zip", "map", "enumerate", "reversed")):
+                    got = self.seq(sub, n)
+                    if got is not None:
+                        new = (ast.List if isinstance(sub, ast.ListComp) else ast.Tuple)(elts=[copy.deepcopy(x) for x in got], ctx=ast.Load())
+                        repl[id(sub)] = ast.copy_location(new, sub)
+            # `a, b = <name bound to a display / generator of known length>`
+            if isinstance(st, ast.Assign) and len(st.targets) == 1 and isinstance(st.targets[0], (ast.Tuple, ast.List)) \
+                    and isinstance(st.value, (ast.Name, ast.Call)) and id(st.value) not in repl:
+                got = self.seq(st.value, n)
+                if got is not None and len(got) == len(st.targets[0].elts) and not self._is_display_name(st.value, n):
+                    repl[id(st.value)] = ast.copy_location(ast.Tuple(elts=[copy.deepcopy(x) for x in got], ctx=ast.Load()), st.value)
+        # `for T in <sequence of known length>: BODY` -> `T = e1; BODY; T = e2; BODY; ..` (a dispatch loop over a table becomes the
+        # chain of tests it stands for)
+        loops: Dict[int, List[ast.AST]] = {}
+        for n in self.g.nodes():
+            st = self.g.stmt[n]
+            if self.g.kind[n] != "loop" or not isinstance(st, ast.For) or st.orelse or id(st) in loops:
+                continue
+            got = self.seq(st.iter, n)
+            if got is None or not (0 < len(got) <= MAX_UNROLL) or not self._unrollable_body(st):
+                continue
+            if not all(self._bind(st.target, x) is not None or isinstance(st.target, ast.Name) for x in got):
+                continue
+            loops[id(st)] = got
+        if not repl and not loops:
+            return self.f
+        memo: Dict[int, object] = {}
+        fn = copy.deepcopy(self.f.node, memo)
+        # deepcopy's memo maps id(original) -> copy: translate the replacement table to the copied nodes
+        by_copy = {id(memo[k]): v for k, v in repl.items() if k in memo}
+
+        loops_by_copy = {id(memo[k]): v for k, v in loops.items() if k in memo}
+
+        class R(ast.NodeTransformer):
+            def visit(self, node):
+                if id(node) in by_copy:
+                    return by_copy[id(node)]
+                if id(node) in loops_by_copy and isinstance(node, ast.For):
+                    elems = loops_by_copy.pop(id(node))
+                    out = []
+                    for x in elems:
+                        tgt = copy.deepcopy(node.target)
+                        out.append(ast.copy_location(ast.Assign(targets=[tgt], value=copy.deepcopy(x), lineno=node.lineno), node))
+                        for b in node.body:
+                            nb = self.visit(copy.deepcopy(b))
+                            out.extend(nb if isinstance(nb, list) else [nb])
+                    return out
+                return super().visit(node)
+
+        R().visit(fn)
+        ast.fix_missing_locations(fn)
+        out = FuncInfo(self.f.mod, self.f.cls, fn, static=self.f.static)
+        out.qn = self.f.qn
+        for a in ("flat_of", "inlined", "inlined_bodies"):
+            if hasattr(self.f, a):
+                setattr(out, a, getattr(self.f, a))
+        return out
+
+
+_unrolled: Dict[int, FuncInfo] = {}
+_keep_alive: List[FuncInfo] = []
+
+
+def unroll(repo: Repo, f: FuncInfo) -> FuncInfo:
+    k = id(f.node)
+    if k not in _unrolled:
+        _keep_alive.append(f)
+        cur = f
+        for _ in range(4):          # a display produced by one step can feed the next (`sides = (g(s) for s in (a, b))` then `zip(sides, ..)`)
+            nxt = Unroller(repo, cur).run()
+            if nxt is cur:
+                break
+            cur = nxt
+        _unrolled[k] = cur
+    return _unrolled[k]
